@@ -1,4 +1,4 @@
-import FatVerif.Proofs.SliceModel5
+import FatVerif.Proofs.SliceModel6
 import FatVerif.Props.C09
 import FatVerif.Props.C14
 /-! # C11 — region facts: WHERE the operations of a mounted volume write (on the device log)
@@ -173,6 +173,181 @@ theorem file_write_in_cluster (f : FileH) (buf : List Nat) (d : Dev)
           · exact Or.inl (Nat.mod_lt _ h)
         omega
 
+/-! ## `File::write` stays in the data region (under the FAT invariant) -/
+
+theorem clusterOff_mono (fs : FsState) {a b : Nat} (h : a ≤ b) : clusterOff fs a ≤ clusterOff fs b := by
+  unfold clusterOff
+  exact Nat.mul_le_mul_right _ (Nat.add_le_add_left (Nat.mul_le_mul_right _ (Nat.sub_le_sub_right h 2)) _)
+
+theorem clusterOff_succ (fs : FsState) {c : Nat} (hc : 2 ≤ c) : clusterOff fs c + fs.clusterSize = clusterOff fs (c + 1) := by
+  unfold clusterOff FsState.clusterSize
+  have : c + 1 - 2 = (c - 2) + 1 := by omega
+  rw [this, Nat.add_mul (c - 2) 1, Nat.one_mul, ← Nat.add_assoc, Nat.mul_comm fs.bps fs.spc]
+  simp only [Nat.add_mul]
+
+/-- the bytes of the FAT window are not touched by `set_dirty_flag` when the status byte lies before it -/
+theorem setDirtyFlag_fatView (b : Bool) (d : Dev) (hw : d.img.WF)
+    (hstat : statusOff d.fs + 1 ≤ (fatSliceOf d.fs).beginOff) {r d1} (hr : run (setDirtyFlag b) d = (r, d1)) (c : Nat) :
+    imgFatView d1.fs d1.img c = imgFatView d.fs d.img c := by
+  obtain ⟨hg, _⟩ := setDirtyFlag_all b d hr
+  obtain ⟨_, items, hl, hbytes⟩ := run_img_eq_replay _ d r d1 hr hw
+  obtain ⟨items', hl', hin⟩ := setDirtyFlag_within b d hr
+  have hit : items' = items := List.append_cancel_right (hl'.symm.trans hl)
+  subst hit
+  have hq : ∀ q, (fatSliceOf d.fs).beginOff ≤ q → d1.img.getByte q = d.img.getByte q := by
+    intro q hq
+    rw [hbytes q]
+    apply replay_outside
+    intro off bs hm
+    obtain ⟨it, hit, hn⟩ := List.mem_map.mp hm
+    cases it with
+    | flush => cases hn
+    | write o b =>
+      simp only [LogItem.norm, LogItem.write.injEq] at hn
+      obtain ⟨rfl, rfl⟩ := hn
+      have := hin _ hit
+      simp only [LogItem.within] at this
+      rw [List.length_map]
+      omega
+  have hsl : fatSliceOf d1.fs = fatSliceOf d.fs := fatSliceOf_geom hg true
+  have hft : d1.fs.fatType = d.fs.fatType := (hg.proj FsState.fatType).symm
+  unfold imgFatView
+  rw [hsl, hft]
+  congr 1
+  have h0 : ∀ x, d1.img.getByte ((fatSliceOf d.fs).beginOff + x) = d.img.getByte ((fatSliceOf d.fs).beginOff + x) :=
+    fun x => hq _ (Nat.le_add_right _ _)
+  have h1 : ∀ x k, d1.img.getByte ((fatSliceOf d.fs).beginOff + x + k) = d.img.getByte ((fatSliceOf d.fs).beginOff + x + k) :=
+    fun x k => hq _ (by omega)
+  unfold imgFatRaw Img.le16 Img.le32
+  cases d.fs.fatType <;> simp only [h0, h1]
+
+/-- **`file_write_in_data_region`**: on a volume whose FAT (first copy, as decoded from the image) satisfies the
+    structural invariant `FatWf` of C03 (links in range), with the FAT copies inside the device and the status byte
+    before them, a successful `File::write` returning `n > 0` on a handle whose own cluster fields are in range
+    (provenance of the handle: `first_cluster` from a directory entry, `current_cluster` from an earlier walk) puts its
+    data — the newest record of the log — inside a cluster `cur` with `2 ≤ cur < total_clusters + 2`, hence inside the
+    data region `[clusterOff 2, clusterOff (total_clusters + 2))`. The cluster comes from the handle, from a FAT link
+    (`FatWf`), or from `alloc_cluster` (always below `total + 2`). -/
+theorem file_write_in_data_region (f : FileH) (buf : List Nat) (d : Dev) (hfit : DevFits d.fs d.img.size)
+    (hmir : 0 < (fatSliceOf d.fs).mirrors)
+    (hw : d.img.WF) (hstat : statusOff d.fs + 1 ≤ (fatSliceOf d.fs).beginOff)
+    (hfat : Fat.FatWf (imgFatView d.fs d.img) d.fs.totalClusters)
+    (hfirst : ∀ c, f.firstCluster = some c → c < d.fs.totalClusters + 2)
+    (hcurr : ∀ c, f.currentCluster = some c → c < d.fs.totalClusters + 2)
+    {n : Nat} {f' : FileH} {d' : Dev} (hr : run (f.write buf) d = (.ok (n, f'), d')) (hn : n > 0) :
+    ∃ cur, 2 ≤ cur ∧ cur < d.fs.totalClusters + 2 ∧
+      d'.log.head? = some (.write (clusterOff d.fs cur + f.offset % d.fs.clusterSize) (buf.take n)) ∧
+      clusterOff d.fs 2 ≤ clusterOff d.fs cur + f.offset % d.fs.clusterSize ∧
+      clusterOff d.fs cur + f.offset % d.fs.clusterSize + (buf.take n).length ≤ clusterOff d.fs (d.fs.totalClusters + 2) := by
+  have hdevfat : (fatSliceOf d.fs).beginOff + (fatSliceOf d.fs).size ≤ d.img.size := by
+    have h1 := hfit.fat
+    have := Nat.mul_le_mul_right (fatSliceOf d.fs).size hmir
+    omega
+  -- the bound on the cluster gives the region facts
+  have region : ∀ cur, 2 ≤ cur → cur < d.fs.totalClusters + 2 → n ≤ d.fs.clusterSize - f.offset % d.fs.clusterSize →
+      clusterOff d.fs 2 ≤ clusterOff d.fs cur + f.offset % d.fs.clusterSize ∧
+      clusterOff d.fs cur + f.offset % d.fs.clusterSize + (buf.take n).length ≤ clusterOff d.fs (d.fs.totalClusters + 2) := by
+    intro cur h2 hlt hnle
+    have m1 := clusterOff_mono d.fs h2
+    have m2 := clusterOff_mono d.fs (show cur + 1 ≤ d.fs.totalClusters + 2 by omega)
+    have m3 := clusterOff_succ d.fs h2
+    have hl : (buf.take n).length ≤ n := by simp only [List.length_take]; omega
+    refine ⟨by omega, ?_⟩
+    have hm : f.offset % d.fs.clusterSize < d.fs.clusterSize ∨ d.fs.clusterSize = 0 := by
+      rcases Nat.eq_zero_or_pos d.fs.clusterSize with h | h
+      · exact Or.inr h
+      · exact Or.inl (Nat.mod_lt _ h)
+    omega
+  unfold FileH.write at hr
+  rcases run_bind_cases hr with ⟨fs, d0, h0, hr⟩ | ⟨e, _, he⟩
+  rotate_left
+  · cases he
+  simp only [Prog.getFs, run, stepOp] at h0
+  cases h0
+  dsimp only at hr
+  split at hr
+  · have hr' : run (Prog.pure ((0 : Nat), f)) d = (.ok (n, f'), d') := hr
+    simp only [run] at hr'; cases hr'; omega
+  rcases run_bind_cases hr with ⟨_, d1, h1, hr⟩ | ⟨e, _, he⟩
+  rotate_left
+  · cases he
+  have a1 := setDirtyFlag_all true d h1
+  have s1 : d1.img.size = d.img.size := run_img_size _ _ _ _ h1
+  have hview1 := setDirtyFlag_fatView true d hw hstat h1
+  have hsl1 : fatSliceOf d1.fs = fatSliceOf d.fs := fatSliceOf_geom a1.1 true
+  rcases run_bind_cases hr with ⟨⟨cur, f1⟩, d2, h2, hr⟩ | ⟨e, _, he⟩
+  rotate_left
+  · cases he
+  -- the cluster selected lies in range
+  have hcur : cur < d.fs.totalClusters + 2 := by
+    split at h2
+    · rcases run_bind_cases h2 with ⟨nxt, d3, h3, h4⟩ | ⟨e, _, he⟩
+      rotate_left
+      · cases he
+      try dsimp only at h4
+      split at h4
+      · rename_i n0
+        have h4' : run (Prog.pure (n0, f)) d3 = (.ok (cur, f1), d2) := h4
+        simp only [run] at h4'; cases h4'
+        unfold FileH.boundaryCluster at h3
+        split at h3
+        · rename_i hnone
+          have h3' : run (Prog.pure f.firstCluster) d1 = (.ok (some cur), _) := h3
+          simp only [run, Prod.mk.injEq, Except.ok.injEq] at h3'
+          exact hfirst cur h3'.1
+        · rename_i m hm
+          have hv := (nextCluster_ok m d1 (by rw [hsl1, s1]; exact hdevfat) h3).1
+          rw [hview1] at hv
+          exact (hfat.link_range m cur hv).2
+      · rcases run_bind_cases h4 with ⟨c, d4, h5, h6⟩ | ⟨e, _, he⟩
+        rotate_left
+        · cases he
+        have hlt := ((allocClusterFs_lt (fs0 := d.fs) (sz := d.img.size) hfit f.currentCluster f.isDir).out d3 _ _
+          (by
+            have : d3.fs = d1.fs := quietOps_fs (FileH.boundaryCluster_quiet f) d1 h3
+            rw [this]; exact a1.1)
+          ((run_img_size _ _ _ _ h3).trans s1) h5).2.2 c rfl
+        try dsimp only at h6
+        have h6' : run (Prog.pure (c, (if f.firstCluster.isNone then FileH.setFirstCluster d.fs f c else f))) d4 =
+            (.ok (cur, f1), d2) := h6
+        simp only [run] at h6'; cases h6'
+        exact hlt
+    · split at h2
+      · rename_i n0 hn0
+        have h2' : run (Prog.pure (n0, f)) d1 = (.ok (cur, f1), d2) := h2
+        simp only [run] at h2'; cases h2'
+        exact hcurr cur hn0
+      · simp only [run] at h2; cases h2
+  dsimp only at hr
+  rcases run_bind_cases hr with ⟨off, d3, h3, hr⟩ | ⟨e, _, he⟩
+  rotate_left
+  · cases he
+  have a3 := (offsetFromClusterP_ro d2.fs d.fs cur).out d2 _ _ rfl h3
+  obtain ⟨hcur2, hoff⟩ := a3.2.2 _ rfl
+  rcases run_bind_cases hr with ⟨_, d4, h4, hr⟩ | ⟨e, _, he⟩
+  rotate_left
+  · cases he
+  have a4 := run_seekStart_spec _ d3 h4
+  rcases run_bind_cases hr with ⟨m, d5, hwr, hr⟩ | ⟨e, _, he⟩
+  rotate_left
+  · cases he
+  have hws := run_write_ok_spec _ d4 hwr
+  split at hr
+  · have hr' : run (Prog.pure ((0 : Nat), f1)) d5 = (.ok (n, f'), d') := hr
+    simp only [run] at hr'; cases hr'; omega
+  · rcases run_bind_cases hr with ⟨f2, d6, hu, hr⟩ | ⟨e, _, he⟩
+    rotate_left
+    · cases he
+    have hr' : run (Prog.pure (m, f2)) d6 = (.ok (n, f'), d') := hr
+    simp only [run] at hr'; cases hr'
+    have hlog := updateAfterWrite_log _ d5 hu
+    have hmle := hws.1
+    simp only [List.length_take] at hmle
+    have hreg := region cur hcur2 hcur (by omega)
+    refine ⟨cur, hcur2, hcur, ?_, hreg.1, hreg.2⟩
+    rw [hlog, hws.2, a4.2.2 _ rfl, hoff, List.take_take, Nat.min_eq_left (by omega)]
+    rfl
+
 /-! ## summary -/
 
 /-- the programs the API runs on a MOUNTED volume (all of `ApiProgAll` except `format` and `mount`), with the fixed-root
@@ -230,7 +405,7 @@ theorem volProg_gs {fs0 : FsState} {sz : Nat} (hfit : DevFits fs0 sz) {α : Type
     editor; and the geometry of the mounted state is unchanged.
     PARTIAL in two named respects: (i) the cluster index is only known to satisfy `2 ≤ c` and the overflow checks of
     `offset_from_cluster` — that `c < total_clusters + 2` needs the FAT well-formedness invariant (the index comes from a
-    FAT entry, a directory entry or `alloc_cluster`); (ii) the position `pos` of a `slot` record comes from a handle's
+    FAT entry, a directory entry or `alloc_cluster`) — for `File::write` this is done in `file_write_in_data_region`; (ii) the position `pos` of a `slot` record comes from a handle's
     editor (an argument, or `entry_pos` of a directory entry read during the operation — including the `..` entry of a
     moved directory that `rename` re-points at its new parent) — that it lies in a directory
     cluster or the root region is provenance of the handle, not tracked here. `format` is not covered (it writes the
@@ -265,5 +440,27 @@ example : (run (C11ex.file.write [7, 8, 9]) C11ex.dev16).2.log = [.write 2560 [7
     copies (518 = 512 + 6, 1030 = 512 + 512 + 6), the status byte after the first -/
 example : (run (Table.set DiskSlice.strm .fat16 (fatSliceOf C11ex.fs16) 3 .eoc) C11ex.dev16).2.log =
     [.write 1030 [255, 255], .write 37 [1], .write 518 [255, 255]] := by decide +kernel
+
+theorem C11ex.view_free (c : Nat) : imgFatView C11ex.fs16 C11ex.dev16.img c = .free := by
+  simp [imgFatView, imgFatRaw, C11ex.fs16, C11ex.dev16, Img.le16, Img.getByte_empty, Table.classify]
+
+/-- the hypotheses of `file_write_in_data_region` are satisfiable: the all-zero example volume has a well-formed page
+    table, an (empty, hence) well-formed FAT, its FAT copies fit the device behind the status byte, and the example
+    handle's first cluster 3 is below `total_clusters + 2 = 7`; the write itself succeeds (log shown above) -/
+example : DevFits C11ex.dev16.fs C11ex.dev16.img.size ∧ 0 < (fatSliceOf C11ex.dev16.fs).mirrors ∧ C11ex.dev16.img.WF ∧
+    statusOff C11ex.dev16.fs + 1 ≤ (fatSliceOf C11ex.dev16.fs).beginOff ∧
+    Fat.FatWf (imgFatView C11ex.dev16.fs C11ex.dev16.img) C11ex.dev16.fs.totalClusters ∧
+    (∀ c, C11ex.file.firstCluster = some c → c < C11ex.dev16.fs.totalClusters + 2) ∧
+    (∀ c, C11ex.file.currentCluster = some c → c < C11ex.dev16.fs.totalClusters + 2) ∧
+    resErr (run (C11ex.file.write [7, 8, 9]) C11ex.dev16).1 = none := by
+  have hv : ∀ c, imgFatView C11ex.dev16.fs C11ex.dev16.img c = .free := C11ex.view_free
+  refine ⟨⟨by decide, by decide⟩, by decide, Img.wf_empty _, by decide, ?_, ?_, ?_, by decide +kernel⟩
+  · refine ⟨?_, ?_, ?_, ⟨fun _ => 0, ?_⟩⟩
+    · intro c n h; rw [hv] at h; cases h
+    · intro c n h; rw [hv] at h; cases h
+    · intro a b n h _; rw [hv] at h; cases h
+    · intro c n h; rw [hv] at h; cases h
+  · intro c h; simp [C11ex.file, FileH.new] at h; subst h; decide
+  · intro c h; simp [C11ex.file, FileH.new] at h
 
 end FatVerif
